@@ -208,6 +208,32 @@ def unit_randomize(S):
     S.fact("randomize_model/frame", not bad, function=F.format("randomize_model"), what="every other model parameter equals the nominal one", detail=bad)
 
 
+def native_foot_height_replay(model):
+    """R1: the real desired_foot_height on the counter-model's phase / swing height, then on a dense grid of phases in [-pi, pi] (both feet) for several swing heights."""
+    cands = []
+    try:
+        x = kit.model_float(model, "phase[0]", None)
+        h = kit.model_float(model, "swing_height", None)
+        if model is not None and x is not None and h is not None:
+            cands.append((np.array([x, 0.0]), h))
+    except Exception:
+        pass
+    grid = np.linspace(-np.pi, np.pi, 721)
+    for h in (0.15, 0.09, 1.0):
+        for a in grid:
+            cands.append((np.array([a, -a]), h))
+    worst = None
+    for ph, h in cands:
+        out = np.asarray(GT.desired_foot_height(jnp.asarray(ph, f32), jnp.asarray(h, f32)), np.float64)
+        lo, hi = out.min(), out.max()
+        if lo < -1e-6 * (1 + h) or hi > h * (1 + 1e-6) + 1e-7:
+            if worst is None or max(-lo, hi - h) > worst[0]:
+                worst = (max(-lo, hi - h), ph.tolist(), h, out.tolist())
+    if worst:
+        return dict(reproduced=True, route="R1 (real desired_foot_height)", inputs=dict(phase=worst[1], swing_height=worst[2]), observed=dict(desired_heights=worst[3], allowed=[0.0, worst[2]]))
+    return dict(reproduced=False, note=f"{len(cands)} (phase, swing height) pairs: heights within [0, swing height]")
+
+
 def unit_gait(S):
     F = "lerax.env.unitree.g1.gait:{}"
     S.under_contract(F.format("advance_gait_phase"), F.format("initial_gait_phase"), F.format("desired_foot_height"))
@@ -238,10 +264,10 @@ def unit_gait(S):
     fh = run(ctx3, GT.desired_foot_height, ph3, h)
     x = ph3.at((0,))
     hy = [x >= -pi, x <= pi, hc >= 0]
-    S.prove("desired_foot_height/within-zero-and-swing-height", ctx3, z3.And(fh.at((0,)) >= 0, fh.at((0,)) <= hc), hyps=hy, function=F.format("desired_foot_height"),
+    S.prove("desired_foot_height/within-zero-and-swing-height", ctx3, z3.And(fh.at((0,)) >= 0, fh.at((0,)) <= hc), hyps=hy, replay=native_foot_height_replay, function=F.format("desired_foot_height"),
             what="desired foot height stays within [0, swing height] for every phase in [-pi, pi]", nl_budget_ms=15000)
-    S.prove("desired_foot_height/zero-at-minus-pi", ctx3, fh.at((0,)) == 0, hyps=[x == -pi, hc >= 0], function=F.format("desired_foot_height"), what="vanishes at phase -pi")
-    S.prove("desired_foot_height/peak-at-zero", ctx3, fh.at((0,)) == hc, hyps=[x == 0, hc >= 0], function=F.format("desired_foot_height"), what="peaks (= swing height) at phase 0")
+    S.prove("desired_foot_height/zero-at-minus-pi", ctx3, fh.at((0,)) == 0, hyps=[x == -pi, hc >= 0], replay=native_foot_height_replay, function=F.format("desired_foot_height"), what="vanishes at phase -pi")
+    S.prove("desired_foot_height/peak-at-zero", ctx3, fh.at((0,)) == hc, hyps=[x == 0, hc >= 0], replay=native_foot_height_replay, function=F.format("desired_foot_height"), what="peaks (= swing height) at phase 0")
 
 
 def _fwd_stub(model, data):
